@@ -127,7 +127,7 @@ func runFull(c Case) (out Outcome) {
 		var em []Emission
 		for i, f := range faces {
 			for _, fr := range f.tr.VerifTakeFrames() {
-				lp, err := lpwire.Parse(fr)
+				lp, err := lpwire.ParseFrame(fr)
 				if err != nil {
 					return nil, viol("C10", "face %d emitted a frame that is not a well-formed LpPacket: %v", i+1, err)
 				}
